@@ -250,6 +250,7 @@ fn render_fn(ctx: &mut Ctx, unit: &Unit, fs: &FnSpec, found: &FoundFn, in_trait_
     let mut pre: Vec<Stmt> = vec![];
     // R-ASYNC on the signature
     if sig.asyncness.is_some() { sig.asyncness = None; n.bump("R-ASYNC"); }
+    if sig.constness.is_some() { sig.constness = None; n.bump("R-ATTR"); }
     // receivers / mut params
     let mut inputs: Vec<String> = vec![];
     let mut extra_generics: Vec<String> = vec![];
@@ -281,8 +282,16 @@ fn render_fn(ctx: &mut Ctx, unit: &Unit, fs: &FnSpec, found: &FoundFn, in_trait_
                 if let Pat::Ident(pi) = &mut *pt.pat {
                     if pi.mutability.is_some() && pi.by_ref.is_none() {
                         pi.mutability = None;
-                        let id = &pi.ident;
-                        pre.push(parse_quote!(let mut #id = #id;));
+                        let id = pi.ident.clone();
+                        if fs.opts.contains("rename-mutparam") {
+                            // the mutable copy gets its own name (`x_mut`) so that contracts and invariants can relate it to the parameter
+                            let to = format!("{}_mut", id);
+                            Rename { from: &id.to_string(), to: &to }.visit_block_mut(&mut block);
+                            let nid = Ident::new(&to, Span::call_site());
+                            pre.push(parse_quote!(let mut #nid = #id;));
+                        } else {
+                            pre.push(parse_quote!(let mut #id = #id;));
+                        }
                         n.bump("R-MUTPARAM");
                     }
                     name = pi.ident.to_string();
@@ -479,6 +488,7 @@ fn main() {
     let mut out = String::new();
     let mut meta_path = String::new();
     let mut canary = false;
+    let mut lenient = false;
     let mut specfile = String::new();
     let mut i = 1;
     while i < args.len() {
@@ -488,6 +498,7 @@ fn main() {
             "--out" => { out = args[i + 1].clone(); i += 1; }
             "--meta" => { meta_path = args[i + 1].clone(); i += 1; }
             "--canary" => canary = true,
+            "--lenient" => lenient = true,
             s => specfile = s.to_string(),
         }
         i += 1;
@@ -822,7 +833,16 @@ fn main() {
     for (ln, line) in o.lines().enumerate() {
         if let Some(p) = line.find("/*VX-CANARY ") { let tag = line[p + 12..].trim_end_matches("*/").trim().to_string(); canary_lines.push(json!({"tag": tag, "line": ln + 1})); }
     }
+    // --lenient: anchors that no longer resolve (`@at`, `@loop`, `@closure`) are dropped instead of being fatal: the
+    // contract text woven there is proof HINTS only, so dropping it can make a proof fail but never succeed wrongly
+    let mut lost_anchors: Vec<String> = vec![];
+    if lenient {
+        let (soft, hard): (Vec<String>, Vec<String>) = ctx.problems.drain(..).partition(|p| p.starts_with("LOST-ANCHOR `") || p.starts_with("LOST-ANCHOR loop ") || p.starts_with("LOST-ANCHOR closure "));
+        lost_anchors = soft;
+        ctx.problems = hard;
+    }
     let meta = json!({
+        "lost_anchors": lost_anchors,
         "unit": unit.name, "serves": unit.serves, "prelude": unit.prelude, "functions": ctx.fns_meta, "types": ctx.types_meta,
         "canaries": canary_lines, "problems": ctx.problems, "trusted_allow": unit.trusted_allow,
         "assumptions": unit.assumptions, "not_under_contract": unit.not_under_contract,
